@@ -179,9 +179,19 @@ class Scanner:
     def slot(s, loc):
         return s.elem_of(loc, 'yy_buffer_stack')
 
-    def via_current(s, loc):
+    def via_current(s, loc, fn=None):
         """loc is a yy_buffer_state field reached through the current-buffer slot (YY_CURRENT_BUFFER_LVALUE->f)"""
-        return loc is not None and loc[0] == 'field' and loc[1] == 'yy_buffer_state' and loc[3][0] == 'deref' and s.slot(loc[3][1])
+        if not (loc is not None and loc[0] == 'field' and loc[1] == 'yy_buffer_state' and loc[3][0] == 'deref'): return False
+        if s.slot(loc[3][1]): return True
+        # `yybuffer b = YY_CURRENT_BUFFER_LVALUE; b->f`: a named temporary (one assignment, address never taken) that was
+        # assigned the value of the current-buffer slot (neutral diff m2P4)
+        if fn is not None and isinstance(loc[3][1], tuple) and loc[3][1][0] == 'local':
+            import ir as _ir, flow as _flow
+            ld = next((x for x in fn.ins if x.op == 'load' and x.ops[0] == ('reg', loc[3][1][1])), None)
+            tv = _flow.named_temporary(fn, ld) if ld is not None and not str(loc[3][1][1]).endswith('.addr') else None
+            d = fn.def_of(_flow.strip_casts(fn, tv)) if tv is not None and tv[0] == 'reg' else None
+            if d is not None and d.op == 'load' and s.slot(_ir.Resolver(fn).loc(d.ops[0])): return True
+        return False
 
     def key(s, rule, fn, what):
         """stable report key: <rule>:<skeleton>:<canonical function>:<construct>"""
